@@ -58,6 +58,7 @@ Inductive imode :=
 | IDiscardCRLF    (* ... and the CRLF after it *)
 | IIdle           (* HandleIdle: poll loop, conn.Read(buf) *)
 | IHandshake      (* HandleStartTLS: tlsConn.Handshake() *)
+| ISSLHandshake   (* implicit-TLS port, HandleSSLConnectionWithCert: tlsConn.Handshake() under its own 30 s deadline *)
 | IDone.          (* handler returned; HandleConnection's deferred conn.Close() ran *)
 
 Record istate := mk_i { i_mode : imode; i_auth : bool; i_sel : bool; i_tls : bool }.
@@ -68,7 +69,7 @@ Definition imode_eqb (a b : imode) : bool :=
   match a, b with
   | ICmd, ICmd | IAuthWait, IAuthWait | ILiteral, ILiteral | ILitCRLF, ILitCRLF
   | IDiscard, IDiscard | IDiscardCRLF, IDiscardCRLF
-  | IIdle, IIdle | IHandshake, IHandshake | IDone, IDone => true
+  | IIdle, IIdle | IHandshake, IHandshake | ISSLHandshake, ISSLHandshake | IDone, IDone => true
   | _, _ => false
   end.
 
@@ -222,8 +223,16 @@ Definition istep (s : istate) (e : event) : istate * list reply :=
       | Data _ true => (mk_i ICmd false false true, [])   (* clientHandler(tlsConn, &ClientState{}) *)
       | _ => (set_mode s IDone, [])
       end
+  | ISSLHandshake =>
+      match e with
+      | Data _ true => (mk_i ICmd false false true, [])   (* clientHandler(tlsConn, &ClientState{}): greeting, handleClient *)
+      | _ => (set_mode s IDone, [])                        (* handshake failed or ran into its deadline: conn.Close() *)
+      end
   | IDone => (s, [])
   end.
+
+(** a connection accepted on the implicit-TLS port *)
+Definition i_init_ssl : istate := mk_i ISSLHandshake false false true.
 
 (** read deadline (milliseconds) in force at the read site of each mode;
     [None] = the handler does not read any more *)
@@ -237,6 +246,7 @@ Definition ideadline (m : imode) : option N :=
   | IDiscardCRLF => Some 100%N
   | IIdle => Some 1800000%N       (* idleTimeout; the 50 ms poll deadlines are internal to the loop *)
   | IHandshake => Some 1800000%N  (* inherited from the loop iteration that read STARTTLS *)
+  | ISSLHandshake => Some 30000%N (* tlsHandshakeTimeout, conn.SetDeadline *)
   | IDone => None
   end.
 
